@@ -29,8 +29,8 @@ type c17 struct{ cache map[string][]SendScenario }
 
 func init() { register(&c17{cache: map[string][]SendScenario{}}) }
 
-func (*c17) ID() string                      { return "C17" }
-func (*c17) Level() string                   { return "fault_enumeration" }
+func (*c17) ID() string                     { return "C17" }
+func (*c17) Level() string                  { return "fault_enumeration" }
 func (*c17) Decode(raw []byte) (any, error) { return decodeInto[SendScenario](raw) }
 
 func bigMsg(token string, n int) MsgSpec {
@@ -380,11 +380,11 @@ func (p *c17) Info() PropInfo {
 			"when the peer stops reading on a TLS connection, 5 s are added to the bound: crypto/tls bounds the close_notify write of Close by a fixed 5 s deadline, and C19 requires the Close",
 			"the bound is measured on the simulated clock from the instant the first suppressed byte was written (or the server stopped) to the return of the call; slack 1 ms of virtual time for kernel park ticks",
 			"slow-drip peers are outside the statement (it speaks of a silent server) and are not judged"},
-		Real:       []string{"github.com/wneessen/go-mail client and smtp packages", "net/textproto", "crypto/tls on both ends", "context deadlines, net.Conn deadlines (virtual clock)"},
-		Stubbed:    []string{"TCP (sim.Pipe with send window)", "SMTP server (refsmtpd)", "clock (synctest bubble)"},
-		NotCovered: []string{"a dial function that itself blocks (the context deadline covers it)", "implicit TLS through the default dialer"},
-		Exhaustive: func(string) bool { return true },
+		Real:            []string{"github.com/wneessen/go-mail client and smtp packages", "net/textproto", "crypto/tls on both ends", "context deadlines, net.Conn deadlines (virtual clock)"},
+		Stubbed:         []string{"TCP (sim.Pipe with send window)", "SMTP server (refsmtpd)", "clock (synctest bubble)"},
+		NotCovered:      []string{"a dial function that itself blocks (the context deadline covers it)", "implicit TLS through the default dialer"},
+		Exhaustive:      func(string) bool { return true },
 		HangIsViolation: true,
-		QuickBudget: 90 * time.Second, ThoroughBudget: 20 * time.Minute,
+		QuickBudget:     90 * time.Second, ThoroughBudget: 20 * time.Minute,
 	}
 }
